@@ -94,6 +94,13 @@ func (s distFn) at(x float64) float64 {
 // one distillation; best=true keeps the maximal qualification (the service's "ascending" ranking);
 // returns the class number per alternative (1 = extracted first)
 func refDistill(sig [][]float64, s distFn, best bool, mg *margins) []int {
+	return refDistillOn(sig, s, best, mg, false)
+}
+
+// refDistillOn: with exact=true the matrix is the implementation's own (already compared with the definition), so a
+// comparison between two of its entries is exact whatever their distance; only comparisons against a computed quantity
+// (cut level minus s(cut level), credibility plus s(credibility)) have a margin that rounding could cross
+func refDistillOn(sig [][]float64, s distFn, best bool, mg *margins, exact bool) []int {
 	n := len(sig)
 	class := make([]int, n)
 	remaining := make([]int, n)
@@ -124,7 +131,9 @@ func refDistill(sig [][]float64, s distFn, best bool, mg *margins) []int {
 			for _, i := range D {
 				for _, j := range D {
 					if i != j {
-						mg.see(sig[i][j] - thr)
+						if !exact || thr != lam {
+							mg.see(sig[i][j] - thr)
+						}
 						if sig[i][j] < thr && sig[i][j] > next {
 							next = sig[i][j]
 						}
@@ -138,10 +147,14 @@ func refDistill(sig [][]float64, s distFn, best bool, mg *margins) []int {
 						continue
 					}
 					x := sig[i][j]
-					mg.see(x - next)
+					if !exact {
+						mg.see(x - next)
+					}
 					if x > next {
 						y := sig[j][i] + s.at(x)
-						mg.see(x - y)
+						if !exact || y != sig[j][i] {
+							mg.see(x - y)
+						}
 						if x > y {
 							qual[i]++
 							qual[j]--
@@ -196,6 +209,24 @@ func refElectre(crits []eCrit, alts []map[string]float64, s distFn) (asc, desc [
 	}
 	asc = refDistill(sig, s, true, &mg)
 	d := refDistill(sig, s, false, &mg)
+	mx := 0
+	for _, x := range d {
+		if x > mx {
+			mx = x
+		}
+	}
+	desc = make([]int, n)
+	for i, x := range d {
+		desc[i] = mx + 1 - x
+	}
+	return
+}
+
+// refElectreOn distils a given credibility matrix (the implementation's own, read through the hook)
+func refElectreOn(sig [][]float64, s distFn) (asc, desc []int, mg margins) {
+	n := len(sig)
+	asc = refDistillOn(sig, s, true, &mg, true)
+	d := refDistillOn(sig, s, false, &mg, true)
 	mx := 0
 	for _, x := range d {
 		if x > mx {
